@@ -868,7 +868,14 @@ fn hop_target(h: &Hop) -> String {
 pub fn check_client(case: &ClientCase, shard: usize) -> Vec<Fail> {
     use std::net::TcpListener;
     use std::sync::{Arc, Mutex};
-    let ip = |n: u8| format!("127.{}.0.{}", 20 + shard, 1 + (n % 4));
+    // host 4 is the IPv6 loopback, written as a bracketed literal in URLs and Location values (seed C07-15: a URL parser
+    // that only adds the default port to hosts without a colon). There is one ::1, so those cases run one at a time.
+    static V6_TURN: Mutex<()> = Mutex::new(());
+    static V6_OK: std::sync::OnceLock<bool> = std::sync::OnceLock::new();
+    let v6_ok = *V6_OK.get_or_init(|| TcpListener::bind(("::1", 0)).is_ok());
+    let uses_v6 = v6_ok && case.hops.iter().any(|h| h.host % 8 == 4);
+    let _turn = if uses_v6 { Some(V6_TURN.lock().unwrap_or_else(|e| e.into_inner())) } else { None };
+    let ip = |n: u8| if n % 8 == 4 && v6_ok { "[::1]".to_string() } else { format!("127.{}.0.{}", 20 + shard, 1 + (n % 4)) };
     // responses per hop index: redirect to hop i+1, or the final response
     let mut wires: Vec<Vec<u8>> = Vec::new();
     for i in 0..case.hops.len() {
@@ -888,7 +895,7 @@ pub fn check_client(case: &ClientCase, shard: usize) -> Vec<Fail> {
     addrs.dedup();
     let mut listeners = Vec::new();
     for a in &addrs {
-        match TcpListener::bind((a.as_str(), 80)) {
+        match TcpListener::bind((a.trim_matches(|c| c == '[' || c == ']'), 80)) {
             Ok(l) => listeners.push((a.clone(), l)),
             Err(e) => return vec![Fail::new("harness-bind", format!("cannot bind {}:80: {}", a, e))],
         }
@@ -1037,7 +1044,7 @@ pub fn check_client(case: &ClientCase, shard: usize) -> Vec<Fail> {
 }
 
 fn arb_client_case() -> impl Strategy<Value = ClientCase> {
-    let hop = (0u8..4, arb_path(), arb_query(), prop_oneof![Just(301u16), Just(302), Just(307)], any::<bool>())
+    let hop = (0u8..5, arb_path(), arb_query(), prop_oneof![Just(301u16), Just(302), Just(307)], any::<bool>())
         .prop_map(|(host, path, query, via_status, relative)| Hop { host, path, query, via_status, relative });
     (
         0u8..4,
